@@ -145,4 +145,68 @@ theorem contactRun_single_chain (t : List Atom) (a : ContactArgs) (hall : a.allc
   rw [mapChains_err _ (nodup_keys_icAfterLoop t a) (by rw [callChains_all hall, h1, hic]; exact ⟨X, by simp, by simp [Dict.keys]⟩)]
   rfl
 
+/-! ### what the Spec's residue lists mean -/
+
+theorem mem_residuesAt_iff {t : List Atom} {S : List Nat} {k : ResKey} :
+    k ∈ residuesAt t S ↔ ∃ s ∈ S, ∃ x, t[s]? = some x ∧ resOf x = k := by
+  rw [mem_residuesAt]
+  constructor
+  · rintro ⟨⟨x, s⟩, hp, hs, hr⟩
+    exact ⟨s, hs, x, List.mem_zipIdx_iff_getElem?.mp hp, hr⟩
+  · rintro ⟨s, hs, x, hx, hr⟩
+    exact ⟨(x, s), List.mem_zipIdx_iff_getElem?.mpr hx, hs, hr⟩
+
+theorem spec_residuesOf (t : List Atom) (S : List Nat) :
+    Asc ltRes (Spec.Contact.residuesOf t S) ∧
+    ∀ k, k ∈ Spec.Contact.residuesOf t S ↔ ∃ s ∈ S, ∃ x, t[s]? = some x ∧ resOf x = k := by
+  unfold Spec.Contact.residuesOf
+  rw [sortDistinct_eq, resLt_eq]
+  exact ⟨asc_sortedSet strictTotal_ltRes _, fun k => by rw [mem_sortedSet, mem_residuesAt_iff]⟩
+
+theorem spec_residuePairMap (t : List Atom) (m : List (Nat × List Nat)) :
+    ((Spec.Contact.residuePairMap t m).map (fun e => e.1)).Nodup ∧
+    (∀ K, K ∈ (Spec.Contact.residuePairMap t m).map (fun e => e.1) ↔ ∃ e ∈ m, ∃ x, t[e.1]? = some x ∧ resOf x = K) ∧
+    ∀ K L, (K, L) ∈ Spec.Contact.residuePairMap t m →
+      Asc ltRes L ∧ ∀ K', K' ∈ L ↔
+        ∃ e ∈ m, (∃ x, t[e.1]? = some x ∧ resOf x = K) ∧ ∃ j ∈ e.2, ∃ y, t[j]? = some y ∧ resOf y = K' := by
+  have hkeys : (Spec.Contact.residuePairMap t m).map (fun e => e.1) =
+      distinctFirst ((resEvents t m).map (fun e => e.1)) := by
+    simp only [Spec.Contact.residuePairMap, List.map_map, distinct_eq, resEvents]
+    exact List.map_id' _
+  have hev : ∀ K, (∃ ev ∈ resEvents t m, ev.1 = K) ↔ ∃ e ∈ m, ∃ x, t[e.1]? = some x ∧ resOf x = K := by
+    intro K
+    simp only [resEvents, List.mem_flatMap, List.mem_map]
+    constructor
+    · rintro ⟨ev, ⟨e, he, K0, hK0, rfl⟩, rfl⟩
+      obtain ⟨s, hs, x, hx, hr⟩ := mem_residuesAt_iff.mp hK0
+      simp only [List.mem_singleton] at hs
+      subst hs
+      exact ⟨e, he, x, hx, hr⟩
+    · rintro ⟨e, he, x, hx, hr⟩
+      exact ⟨(K, residuesAt t e.2), ⟨e, he, K, mem_residuesAt_iff.mpr ⟨e.1, by simp, x, hx, hr⟩, rfl⟩, rfl⟩
+  refine ⟨?_, ?_, ?_⟩
+  · rw [hkeys]; exact nodup_distinctFirst _
+  · intro K
+    rw [hkeys, mem_distinctFirst, List.mem_map, ← hev]
+  · intro K L hKL
+    simp only [Spec.Contact.residuePairMap, List.mem_map, Prod.mk.injEq] at hKL
+    obtain ⟨K0, _, rfl, rfl⟩ := hKL
+    rw [sortDistinct_eq, resLt_eq]
+    refine ⟨asc_sortedSet strictTotal_ltRes _, ?_⟩
+    intro K'
+    rw [mem_sortedSet]
+    simp only [List.mem_flatMap, List.mem_filter, List.mem_map, decide_eq_true_eq]
+    constructor
+    · rintro ⟨ev, ⟨⟨e, he, K1, hK1, rfl⟩, hk⟩, hK'⟩
+      simp only at hk hK'
+      subst hk
+      obtain ⟨s, hs, x, hx, hr⟩ := mem_residuesAt_iff.mp hK1
+      simp only [List.mem_singleton] at hs
+      subst hs
+      obtain ⟨j, hj, y, hy, hr'⟩ := mem_residuesAt_iff.mp hK'
+      exact ⟨e, he, ⟨x, hx, hr⟩, j, hj, y, hy, hr'⟩
+    · rintro ⟨e, he, ⟨x, hx, hr⟩, j, hj, y, hy, hr'⟩
+      exact ⟨(K0, residuesAt t e.2), ⟨⟨e, he, K0, mem_residuesAt_iff.mpr ⟨e.1, by simp, x, hx, hr⟩, rfl⟩, rfl⟩,
+        mem_residuesAt_iff.mpr ⟨j, hj, y, hy, hr'⟩⟩
+
 end Proofs.Contacts
